@@ -141,3 +141,15 @@ Proof.
   split; [intros [|e]; reflexivity|].
   split; [reflexivity|]. split; [vm_compute; repeat constructor | vm_compute; discriminate].
 Qed.
+
+(* ---- stored events (enqueue_event / execute_queued_events), back family ---- *)
+From Msm Require Import Lemmas_SpecQueue.
+
+(* back with either compile policy and back11 (definitions it can compile), any queue option, same switch policy: on
+   histories that also store events from outside and drain them, nothing but the numeric result code can differ *)
+Theorem C13_back_family_same_behaviour_with_stored_events : forall cf1 cf2 md l,
+  c_pol cf1 = c_pol cf2 -> back_family cf1 md -> back_family cf2 md -> flat_events md -> core (md_root md) ->
+  back_start_queues = true -> Forall qplain_op l -> count_enq l + depth (md_root md) + 3 <= default_fuel ->
+  Forall2 same_step_strict (run cf1 md l) (run cf2 md l).
+Proof. exact back_family_same_queue_behaviour. Qed.
+Print Assumptions C13_back_family_same_behaviour_with_stored_events.
